@@ -105,8 +105,30 @@ func init() {
 type structChecker interface{ VerifCheckStructure() error }
 
 // c06CompareInst compares one instance with the model state f.
-func c06CompareInst(c *core.Ctx, w *World, in *Inst, f *rm.Forest, site, trig, desc string, nreq int) bool {
+func c06CompareInst(c *core.Ctx, w *World, in *Inst, f *rm.Forest, site, trig, desc string, nreq int, ever map[Hash]bool) bool {
 	kind := in.Cfg.Kind
+	// the provable set is the same as before the undone blocks: a leaf that is
+	// not (or no longer) in the forest is neither found nor provable
+	for h := range ever {
+		if _, live := f.LeafPos[h]; live {
+			continue
+		}
+		c.Eval(1)
+		if pos, ok := in.U.GetLeafPosition(h); ok {
+			c.Violate(site, "stale-leaf-found", trig, fmt.Sprintf("%s: GetLeafPosition(%s) = (%d, true) for a leaf that is not in the forest", desc, hs(h), pos))
+			return false
+		}
+		if in.P != nil && f.N <= 1 {
+			// Pollard.Prove answers without looking at the hashes when it holds 0 or 1
+			// leaves (documented in its code); it does so before and after the undone
+			// blocks alike, so nothing distinguishes the two states here.
+			continue
+		}
+		if pr, err := in.U.Prove([]Hash{h}); err == nil {
+			c.Violate(site, "stale-leaf-provable", trig, fmt.Sprintf("%s: Prove(%s) succeeded (%s) for a leaf that is not in the forest", desc, hs(h), proofStr(pr)))
+			return false
+		}
+	}
 	c.Eval(1)
 	if n := in.U.GetNumLeaves(); n != f.N || !eqHashes(in.U.GetRoots(), f.Roots) {
 		c.Violate(site, "roots", trig, fmt.Sprintf("%s: N=%d roots=%s; reference N=%d roots=%s", desc, n, hashesStr(in.U.GetRoots()), f.N, hashesStr(f.Roots)))
@@ -174,6 +196,7 @@ func c06Check(c *core.Ctx, s fScenario) {
 		nreq = 8
 	}
 	sawDel := false
+	ever := map[Hash]bool{}
 	w := runForest(c, s, func(site, clause, trigger, detail string) {
 		cl := "setup:" + clause
 		if len(site) > 5 && site[len(site)-5:] == ".Undo" {
@@ -183,6 +206,11 @@ func c06Check(c *core.Ctx, s fScenario) {
 	}, func(st *fState) {
 		if st.Op.Kind == "block" && len(st.Op.Block.Dels) > 0 {
 			sawDel = true
+		}
+		if st.Op.Kind == "block" && st.LastRec != nil {
+			for _, h := range st.LastRec.AddHashes {
+				ever[h] = true
+			}
 		}
 		if !st.AfterUndo {
 			return
@@ -196,7 +224,7 @@ func c06Check(c *core.Ctx, s fScenario) {
 			if st.Op.Kind != "undo" {
 				site = in.Cfg.Kind + ".Modify-after-undo"
 			}
-			if !c06CompareInst(c, st.W, in, st.F, site, trig, fmt.Sprintf("%s: %s", st.When, in.Name), nreq) {
+			if !c06CompareInst(c, st.W, in, st.F, site, trig, fmt.Sprintf("%s: %s", st.When, in.Name), nreq, ever) {
 				return
 			}
 		}
